@@ -3,7 +3,9 @@ _ref_path / item_ref_path / cfg[path] / `path in cfg` / cfg[path] = v), the gene
 one option per scalar field (on + off switch for booleans) with dest == path, and cmdline_args_override touches
 exactly the options the user supplied and did not ignore (value AND user-defined mark of every other field kept).
 """
+import contextlib
 import hashlib
+import io
 import itertools
 import json
 
@@ -106,6 +108,12 @@ def _chain_set(cfg, path, value):
     head, _, last = path.rpartition(".")
     owner = _chain_get(cfg, head) if head else cfg
     return setattr(owner, last, value)
+
+
+def _quiet_parse(parser, argv):
+    """parse_args without argparse's usage text on the real stderr (a SystemExit still propagates)"""
+    with contextlib.redirect_stderr(io.StringIO()):
+        return parser.parse_args(argv)
 
 
 def _opt(path):
@@ -293,7 +301,7 @@ def _check_parser(desc, target, schema=None):
             continue
         argv = [o, "v"] if mode == "value" else [o]
         try:
-            ns = parser.parse_args(argv)
+            ns = _quiet_parse(parser, argv)
             got = getattr(ns, path, "<absent>")
         except SystemExit:
             got = "<parse error>"
@@ -302,7 +310,7 @@ def _check_parser(desc, target, schema=None):
             fails.append(("support:generate_argparse_parser/post:C16.option-stores-under-path",
                           "parse_args(%r).%s is %r, expected %r" % (argv, path, got, want), mode))
     try:
-        ns = parser.parse_args([])
+        ns = _quiet_parse(parser, [])
         dests = set(vars(ns))
     except SystemExit:
         dests = {"<parse error>"}
@@ -382,7 +390,7 @@ def _check_override(desc, supplied, ignore, state, pre=None):
     before = _state(cfg, leaves)
     argv = _argv_of(supplied)
     try:
-        ns = parser.parse_args(argv)
+        ns = _quiet_parse(parser, argv)
     except SystemExit:
         return [("support:generate_argparse_parser/post:C16.accepts-generated-options",
                  "parser rejects command line %r" % (argv,), "parse")]
@@ -545,7 +553,190 @@ def _check_history(component, mount, reads):
     return fails
 
 
+# ------------------------------------------------------------------------------------------------ parser must not pre-filter
+def _prefilter_kinds():
+    """scalar field kinds that normalise or constrain their value: kind -> (key, factory, command-line texts: canonical,
+    valid only after the field's own normalisation, rejected by the field)"""
+    import cincoconfig as cc
+    return {
+        "str-choices-case-strip": ("color", lambda: cc.StringField(choices=["red", "green"], transform_case="lower",
+                                                                   transform_strip=True, default="red"),
+                                   ["green", "GREEN", " green ", "  Red", "blue", ""]),
+        "str-choices-upper": ("tier", lambda: cc.StringField(choices=["GOLD", "IRON"], transform_case="upper", default="IRON"),
+                              ["GOLD", "gold", "Gold", "tin"]),
+        "str-strip-chars": ("tag", lambda: cc.StringField(transform_strip="_", min_len=2, max_len=4, default="ab"),
+                            ["abc", "__abc__", "_a_", "abcdef"]),
+        "str-regex": ("code", lambda: cc.StringField(regex="^[a-z]{3}$", transform_case="lower", default="abc"),
+                      ["xyz", "XYZ", "xy1"]),
+        "loglevel": ("log_level", lambda: cc.LogLevelField(default="info"),
+                     ["debug", "DEBUG", " Warning ", "Critical", "loud"]),
+        "appmode": ("mode", lambda: cc.ApplicationModeField(default="production"),
+                    ["development", "Production", " DEVELOPMENT ", "staging"]),
+        "int": ("count", lambda: cc.IntField(min=0, max=100, default=1),
+                ["42", "0080", " 7 ", "+5", "1_0", "1e3", "101", "abc", "4.0"]),
+        "float": ("ratio", lambda: cc.FloatField(min=0.0, max=5000.0, default=0.5),
+                  ["2.5", "1e3", " 3 ", ".5", "1_0.5", "nan", "inf", "5001", "abc"]),
+        "port": ("port", lambda: cc.PortField(default=80), ["8080", "0080", " 443 ", "0", "65536", "http"]),
+        "bool": ("verbose", lambda: cc.BoolField(default=False), ["<on>", "<off>"]),
+        "bool-default-true": ("color_on", lambda: cc.BoolField(default=True), ["<on>", "<off>"]),
+        "hostname": ("host", lambda: cc.HostnameField(default="localhost"),
+                     ["example.com", "EXAMPLE.com", "127.0.0.1", "127.000.000.001", "a b", ""]),
+        "hostname-no-ipv4": ("peer", lambda: cc.HostnameField(allow_ipv4=False, default="localhost"),
+                             ["example.com", "10.0.0.1"]),
+        "ipv4": ("addr", lambda: cc.IPv4AddressField(default="127.0.0.1"), ["10.0.0.1", "010.0.0.1", "999.1.1.1", "host"]),
+        "ipv4net": ("net", lambda: cc.IPv4NetworkField(default="10.0.0.0/8"),
+                    ["192.168.0.0/16", "10.0.0.0/255.0.0.0", "10.0.0.1", "10.0.0.1/8", "nope"]),
+        "url": ("url", lambda: cc.UrlField(default="http://a"), ["https://example.com/x?y=1", "HTTP://EXAMPLE.COM", "noscheme"]),
+        "filename": ("path", lambda: cc.FilenameField(startdir="/rac-c16-base/dir", default=None),
+                     ["rel/name.txt", "/abs/name.txt", "../up.txt"]),
+        "filename-must-exist": ("src", lambda: cc.FilenameField(exists=True, default=None), ["/nonexistent-rac-c16/x"]),
+    }
+
+
+def _check_prefilter(kind, text, nested):
+    """the generated option must take whatever text the field itself takes by assignment, store what `cfg[path] = text`
+    stores, and hand a text the field rejects to cmdline_args_override (ValidationError), never exit in parse_args"""
+    import cincoconfig as cc
+    key, factory, _texts = _prefilter_kinds()[kind]
+    wk = "parser-prefilters:%s" % kind
+
+    def build():
+        schema = cc.Schema()
+        schema.other = cc.IntField(default=1)
+        if nested:
+            setattr(schema.app, key, factory())
+        else:
+            setattr(schema, key, factory())
+        return schema
+
+    path = ("app." if nested else "") + key
+    schema = build()
+    try:
+        parser = cc.generate_argparse_parser(schema, prog="rac", add_help=False)
+    except Exception as exc:
+        return [("support:generate_argparse_parser/raise:C16.total-on-collision-free-schemas",
+                 "generate_argparse_parser raised %s: %s" % (type(exc).__name__, exc), wk)]
+    if text == "<on>":
+        argv, raw = [_opt(path)], True
+    elif text == "<off>":
+        argv, raw = [_off(path)], False
+    else:
+        argv, raw = [_opt(path), text], text
+
+    def observe(cfg):
+        out = {}
+        for p in (path, "other"):
+            v = cfg[p]
+            out[p] = (type(v).__name__, repr(v), cc.is_value_defined(cfg, p))
+        return out
+
+    twin = schema()
+    try:
+        twin[path] = raw
+        by_assignment = None
+    except Exception as exc:
+        by_assignment = exc
+    want = observe(twin)
+    err = io.StringIO()
+    try:
+        with contextlib.redirect_stderr(err):
+            ns = parser.parse_args(argv)
+    except SystemExit:
+        if by_assignment is None:
+            return [("support:generate_argparse_parser/post:C16.parser-accepts-what-the-field-accepts",
+                     "%s: `cfg[%r] = %r` is accepted (stores %r) but parse_args(%r) exits: %s"
+                     % (kind, path, raw, want[path][:2], argv, err.getvalue().strip().splitlines()[-1:]), wk)]
+        return [("support:cmdline_args_override/raise:C16.rejection-is-the-fields-validation-error",
+                 "%s: %r is rejected by the field (%s) but the rejection surfaces as an argparse exit in parse_args(%r), not "
+                 "as ValidationError from cmdline_args_override" % (kind, raw, type(by_assignment).__name__, argv), wk)]
+    except Exception as exc:
+        return [("support:generate_argparse_parser/post:C16.parser-accepts-what-the-field-accepts",
+                 "%s: parse_args(%r) raised %s: %s" % (kind, argv, type(exc).__name__, exc), wk)]
+    cfg = schema()
+    try:
+        cc.cmdline_args_override(cfg, ns)
+        raised = None
+    except Exception as exc:
+        raised = exc
+    if by_assignment is not None:
+        if not isinstance(raised, cc.ValidationError) or not isinstance(by_assignment, cc.ValidationError):
+            return [("support:cmdline_args_override/raise:C16.rejection-is-the-fields-validation-error",
+                     "%s: assignment of %r raises %r; cmdline_args_override after parse_args(%r) raised %r (stored %r)"
+                     % (kind, raw, by_assignment, argv, raised, observe(cfg)[path][:2]), wk)]
+        return []
+    if raised is not None:
+        return [("support:cmdline_args_override/post:C16.stores-what-assignment-stores",
+                 "%s: `cfg[%r] = %r` is accepted but cmdline_args_override after parse_args(%r) raised %s: %s"
+                 % (kind, path, raw, argv, type(raised).__name__, raised), wk)]
+    got = observe(cfg)
+    if got != want:
+        return [("support:cmdline_args_override/post:C16.stores-what-assignment-stores",
+                 "%s: command line %r leaves (type, value, user-defined) %r, `cfg[%r] = %r` leaves %r"
+                 % (kind, argv, got, path, raw, want), wk)]
+    return []
+
+
+# ------------------------------------------------------------------------------------------------ ignore names vs destinations
+IGNORE_SCHEMAS = {
+    "nested": [["schema", "log", [["leaf", "level", "str"]]],
+               ["schema", "db", [["leaf", "port", "port"], ["leaf", "port_retries", "int"], ["leaf", "ssl", "bool_f"],
+                                 ["leaf", "sslmode", "str"]]],
+               ["schema", "a", [["leaf", "b", "int"]]],
+               ["leaf", "ab", "int"]],
+    "flat": [["leaf", "log_level", "str"], ["leaf", "logs", "int"], ["leaf", "port", "port"],
+             ["leaf", "port_retries", "int"]],
+}
+# (relation, schema, supplied destinations, ignored name(s))
+IGNORE_CASES = [
+    ("prefix-without-boundary", "nested", ["db.port_retries", "db.port"], ["db.port"]),
+    ("prefix-without-boundary", "nested", ["db.port_retries"], ["db.port"]),
+    ("prefix-without-boundary", "nested", ["db.sslmode", "db.ssl"], ["db.ssl"]),
+    ("prefix-without-boundary", "nested", ["db.sslmode"], ["db.ssl"]),
+    ("prefix-without-boundary", "flat", ["log_level", "logs"], ["log"]),
+    ("prefix-without-boundary", "flat", ["port_retries"], ["port"]),
+    ("prefix-at-dot-boundary(section-name)", "nested", ["log.level"], ["log"]),
+    ("prefix-at-dot-boundary(section-name)", "nested", ["a.b", "ab"], ["a"]),
+    ("prefix-at-dot-boundary(section-name)", "nested", ["db.port", "db.ssl", "db.sslmode"], ["db"]),
+    ("prefix-including-dot", "nested", ["db.port", "db.sslmode"], ["db."]),
+    ("suffix-at-dot-boundary", "nested", ["log.level"], ["level"]),
+    ("suffix-at-dot-boundary", "nested", ["db.port"], ["port"]),
+    ("suffix-without-boundary", "nested", ["db.sslmode"], ["mode"]),
+    ("suffix-without-boundary", "flat", ["log_level"], ["level"]),
+    ("substring", "nested", ["db.port_retries"], ["port"]),
+    ("substring", "nested", ["db.port"], ["b.p"]),
+    ("substring", "flat", ["log_level"], ["g_l"]),
+    ("supplied-is-prefix-of-ignored", "nested", ["db.port"], ["db.port_retries"]),
+    ("supplied-is-prefix-of-ignored", "nested", ["db.ssl"], ["db.sslmode"]),
+    ("supplied-is-prefix-of-ignored", "nested", ["a.b"], ["a.b.c"]),
+    ("supplied-is-prefix-of-ignored", "flat", ["port"], ["port_retries"]),
+    ("exact-name-among-lookalikes", "nested", ["db.port", "db.port_retries", "db.ssl", "db.sslmode"], ["db.port", "db.ssl"]),
+    ("exact-name-among-lookalikes", "nested", ["a.b", "ab"], ["ab"]),
+    ("case-differs", "flat", ["log_level"], ["LOG_LEVEL"]),
+    ("option-spelling-not-destination", "nested", ["db.port_retries"], ["db-port-retries"]),
+    ("option-spelling-not-destination", "nested", ["db.port_retries"], ["--db-port-retries"]),
+]
+
+
+def _check_ignore(index, form, state):
+    relation, schema_name, supplied_paths, names = IGNORE_CASES[index]
+    desc = IGNORE_SCHEMAS[schema_name]
+    kinds = _kinds()
+    kind_of = dict((p, k) for p, k in _paths(desc) if k is not None)
+    supplied = []
+    for p in supplied_paths:
+        _f, cls, text, stored, _alt, _bad = kinds[kind_of[p]]
+        supplied.append([p, [_opt(p), text], ["value", stored]] if cls == "scalar" else [p, [_opt(p)], ["value", True]])
+    ignore = names[0] if form == "str" else list(names)
+    wk = "ignore-name:%s/%s" % (relation, form)
+    out = []
+    for obligation, what, _k in _check_override(desc, supplied, ignore, state):
+        out.append((obligation, "[ignore %r, supplied %r] %s" % (ignore, supplied_paths, what), wk))
+    return out
+
+
 CHECKS = {"naming": lambda c: _check_naming(c["schema"]),
+          "prefilter": lambda c: _check_prefilter(c["kind"], c["text"], c["nested"]),
+          "ignore-name": lambda c: _check_ignore(c["index"], c["form"], c["state"]),
           "history": lambda c: _check_history(c["component"], c["mount"], c["reads"]),
           "config": lambda c: _check_config_access(c["schema"], c["state"]),
           "parser": lambda c: _check_parser(c["schema"], c["target"]),
@@ -570,8 +761,13 @@ def rac(tier="quick", seed=0):
              "the schema has at least one field (all do); distinct by full description; (component, mount, reads) = "
              "construction history: a detached component schema is built, its reference paths are read (or not) before "
              "and/or after each mount step, it is mounted into the root, then all naming/config/parser clauses are "
-             "evaluated on the final root",
-        bound="histories: 3 components (flat, nested, depth 3) x 8 mounts (attribute, two levels, schema['a.b'] = c, "
+             "evaluated on the final root; (field kind, text, nested) -> parse_args + cmdline_args_override vs "
+             "`cfg[path] = text` on a twin configuration; (ignore case, str|list, state) -> override with an ignore name that "
+             "textually resembles a supplied destination: only exact destination names are ignored",
+        bound="parser pre-filtering: 18 normalising/constraining scalar field kinds x 2-9 texts (canonical, valid only after "
+              "the field's normalisation, rejected) x root/nested; ignore names: 26 (ignored name, supplied destinations) "
+              "pairs in 9 textual relations (prefix/suffix/substring with and without '.' boundary, reverse, exact among "
+              "lookalikes, case, option spelling) x str/list x fresh/dirty; histories: 3 components (flat, nested, depth 3) x 8 mounts (attribute, two levels, schema['a.b'] = c, "
               "schema['a.b.c'] = c, via detached parent, parent first, moved from a discarded holder, moved between two "
               "parents) x 4 read schedules (never, before, after each step, both); "
               "3 flat + 81 depth-2 shapes (exhaustive for width <= 3) + 51 depth-3 shapes; command "
@@ -580,6 +776,25 @@ def rac(tier="quick", seed=0):
               "fresh defaults (all ignore lists), every leaf user-set (quick: ignore None and [supplied] only)",
         tier=tier, seed=seed)
     shapes = _shapes(tier)
+    with sandbox():
+        extra = []
+        for kind, (_key, _factory, texts) in _prefilter_kinds().items():
+            for text in texts:
+                for nested in (False, True):
+                    extra.append({"check": "prefilter", "kind": kind, "text": text, "nested": nested})
+        for index, (_rel, _schema_name, _sup, names) in enumerate(IGNORE_CASES):
+            for form in ("list", "str") if len(names) == 1 else ("list",):
+                for st in ("fresh", "dirty"):
+                    extra.append({"check": "ignore-name", "index": index, "form": form, "state": st})
+        for case in extra:
+            fails = CHECKS[case["check"]](case)
+            rec.case(key=tuple(sorted((k, repr(v)) for k, v in case.items())), nontrivial=True,
+                     sample=case if case in ({"check": "prefilter", "kind": "loglevel", "text": "DEBUG", "nested": True},
+                                             {"check": "ignore-name", "index": 0, "form": "list", "state": "fresh"}) else None)
+            for obligation, what, wk in fails:
+                rp = dict(case)
+                rp["obligation"] = obligation
+                rec.violation(obligation=obligation, what=what, replay=rp, witness_key=wk)
     with sandbox():
         for component in COMPONENTS:
             for mount in MOUNTS:
